@@ -209,6 +209,40 @@ func main() {
 		die("type fileHashing is not struct{algo hashing.IHash}: state carried between file hashes is outside the model")
 	}
 
+	// ---- constructors build a FRESH object per call and the two files keep no package-level state through which
+	// calculations of different callers could meet (a shared, cached hasher is a stateful hash.Hash used by several callers)
+	findFileFunc := func(f *ast.File, name string) *ast.FuncDecl {
+		for _, d := range f.Decls {
+			if fd, ok := d.(*ast.FuncDecl); ok && fd.Recv == nil && fd.Name.Name == name {
+				return fd
+			}
+		}
+		return nil
+	}
+	if f := findFileFunc(ff, "NewFileHash"); f == nil || norm(fset, f.Body) != "{algo,err:=hashing.NewHashingAlgorithm(hashType)iferr!=nil{returnnil,err}return&fileHashing{algo:algo,},nil}" {
+		die("NewFileHash does not build a fresh fileHashing around a fresh hashing algorithm on every call")
+	}
+	if f := findFileFunc(hf, "newHashingAlgorithm"); f == nil || !strings.Contains(norm(fset, f.Body), "return&hashingAlgo{Hash:algorithm,Type:htype,},nil") {
+		die("newHashingAlgorithm does not return a fresh hashingAlgo")
+	}
+	for _, file := range []*ast.File{hf, ff} {
+		for _, d := range file.Decls {
+			gd, ok := d.(*ast.GenDecl)
+			if !ok || gd.Tok != token.VAR {
+				continue
+			}
+			for _, sp := range gd.Specs {
+				vs := sp.(*ast.ValueSpec)
+				for _, n := range vs.Names {
+					if n.Name == "_" {
+						continue
+					}
+					die("package-level variable %s in %s: state shared between calculations is outside the model", n.Name, fset.Position(n.Pos()).Filename)
+				}
+			}
+		}
+	}
+
 	// ---- tarfs.go: does the tar adapter hand out REWOUND handles?  (afero's tarfs shares one reader between all the
 	// handles of a file; see coq/C20/Model.v, shfile)
 	tf, err := parser.ParseFile(fset, filepath.Join(repo, "utils/filesystem/tarfs.go"), nil, 0)
